@@ -38,6 +38,8 @@ pub enum Mode {
 }
 
 pub struct StressOut {
+    /// final payload of every version on the final chains
+    pub payloads: HashMap<Uuid, Vec<u8>>,
     pub recs: Vec<Rec>,
     /// final chains per client as walked after the run: (vid, parent)
     pub chains: Vec<Vec<(Uuid, Uuid)>>,
@@ -129,7 +131,7 @@ pub fn run(mode: Mode, threads: usize, ops_per_thread: usize, seed: u64, new_cli
         }
     };
     if err.is_some() {
-        return StressOut { recs: vec![], chains: vec![], bases: vec![], overlapping_pairs: 0, error: err };
+        return StressOut { payloads: HashMap::new(), recs: vec![], chains: vec![], bases: vec![], overlapping_pairs: 0, error: err };
     }
     // pre-create client 0 with a few versions unless the very first requests are the subject
     let latest: Arc<Vec<Mutex<Uuid>>> = Arc::new(clients.iter().map(|_| Mutex::new(Uuid::nil())).collect());
@@ -197,6 +199,7 @@ pub fn run(mode: Mode, threads: usize, ops_per_thread: usize, seed: u64, new_cli
     // final chains (quiescent): walk by parents from the stored latest
     let mut chains = vec![];
     let mut bases = vec![];
+    let mut payloads: HashMap<Uuid, Vec<u8>> = HashMap::new();
     if let Some(st) = &final_storage {
         for c in &clients {
             let mut chain = vec![];
@@ -206,6 +209,7 @@ pub fn run(mode: Mode, threads: usize, ops_per_thread: usize, seed: u64, new_cli
                     while !cur.is_nil() && chain.len() < 100_000 {
                         match t.get_version(cur) {
                             Ok(Some(v)) => {
+                                payloads.insert(v.version_id, v.history_segment.clone());
                                 chain.push((v.version_id, v.parent_version_id));
                                 cur = v.parent_version_id;
                             }
@@ -230,7 +234,7 @@ pub fn run(mode: Mode, threads: usize, ops_per_thread: usize, seed: u64, new_cli
         }
     }
     drop(keep);
-    StressOut { recs, chains, bases, overlapping_pairs: overlapping, error: None }
+    StressOut { payloads, recs, chains, bases, overlapping_pairs: overlapping, error: None }
 }
 
 /// Order-based consequences of linearizability; returns the first violated one.
@@ -341,4 +345,30 @@ pub fn check(out: &StressOut, lock_budget_ns: u128) -> Result<(), String> {
         }
     }
     Ok(())
+}
+
+/// C07 under concurrency: every version whose acceptance was acknowledged is still served, with
+/// the parent and payload it was accepted with, when the system is quiescent again.
+pub fn check_immutability(out: &StressOut) -> Result<u64, String> {
+    let mut n = 0u64;
+    for c in 0..out.chains.len() {
+        let pos: HashMap<Uuid, usize> = out.chains[c].iter().enumerate().map(|(i, (v, _))| (*v, i)).collect();
+        for r in out.recs.iter().filter(|r| r.client == c) {
+            if let (Req::AddVersion { parent, data }, Resp::AddOk { vid, .. }) = (&r.req, &r.resp) {
+                n += 1;
+                match pos.get(vid) {
+                    None => return Err(format!("client #{c}: version {vid}, accepted (parent {parent}) while other requests overlapped, is no longer served afterwards (dropped from the chain)")),
+                    Some(i) => {
+                        if out.chains[c][*i].1 != *parent {
+                            return Err(format!("client #{c}: version {vid} was accepted with parent {parent} but is now served with parent {}", out.chains[c][*i].1));
+                        }
+                        if out.payloads.get(vid) != Some(data) {
+                            return Err(format!("client #{c}: version {vid} is now served with a different payload than it was accepted with"));
+                        }
+                    }
+                }
+            }
+        }
+    }
+    Ok(n)
 }
